@@ -1,7 +1,7 @@
 """Logic Blocks devices."""
 from random import shuffle
 
-from typing import Any, List, Optional
+from typing import Any, Dict, List, Optional
 
 from mpf.core.delays import DelayManager
 from mpf.core.device_monitor import DeviceMonitor
@@ -651,11 +651,21 @@ class Sequence(LogicBlock):
         return 0
 
     def setup_event_handlers(self):
-        """Add the handlers for the current step."""
+        """Add one handler per event (an event may belong to more than one step)."""
+        steps_for_event = {}    # type: Dict[str, List[int]]
         for step, events in enumerate(self.config['events']):
             for event in Util.string_to_event_list(events):
-                # increase priority with steps to prevent advancing multiple steps at once
-                self.machine.events.add_handler(event, self.hit, step=step, priority=step)
+                steps_for_event.setdefault(event, []).append(step)
+
+        for event, steps in steps_for_event.items():
+            # a single handler per event prevents advancing multiple steps at once
+            self.machine.events.add_handler(event, self._hit_steps, steps=steps)
+
+    def _hit_steps(self, steps: List[int], **kwargs):
+        """Advance once if the current step is one of the steps the posted event belongs to."""
+        del kwargs
+        if self.value in steps:
+            self.hit(step=self.value)
 
     def hit(self, step: int = None, **kwargs):
         """Increase the hit progress towards completion.
